@@ -18,4 +18,4 @@ Extraction "model.ml"
   Storage.sstep Storage.sinit Storage.read_cells Storage.get_arr Storage.get_sto
   Assign.assign Assign.assign_op Assign.assign_where Assign.fill Assign.eval Assign.reduce_all Assign.indices Assign.assign_spec
   Jacobian.apply_writes Jacobian.omp_blocks Jacobian.J_fwd Jacobian.J_rev
-  VecSplit.stmt_counts VecSplit.reduce_counts VecSplit.align_off.
+  VecSplit.stmt_counts VecSplit.reduce_counts VecSplit.align_off VecSplit.rows_ok.
